@@ -146,6 +146,7 @@ type World struct {
 	rendered         bool // at least one render pass happened (cells may carry renderer-private keys)
 	tagged           bool // tagColumns() has put the identity key on the columns
 	pendingViolation *Violation
+	tcSizes          map[string]int // printed size of table+columns state per key set
 
 	// callbacks (C13)
 	regs         []*SimCallback
